@@ -31,18 +31,33 @@ func vpMarshalOf(it Item) []byte {
 	return nil
 }
 
-// vpPlaceAt puts emb at the named position of x, directly or as the only member of a list.
-func vpPlaceAt(x Item, pos string, emb Item, inList bool) {
-	var v Item = emb
+// vpPlaceAt puts emb at the named position of x, directly or as a member of a list.
+func vpPlaceAt(x Item, pos string, emb Item, inList bool) { vpPlaceAtForm(x, pos, emb, vpListForm(inList)) }
+
+func vpListForm(inList bool) int {
 	if inList {
-		v = ItemCollection{emb}
+		return 1
+	}
+	return 0
+}
+
+// form 0: directly; 1: the only member of a list; 2: the last member of a list after members that say
+// nothing (an IRI, nil, a nil pointer, the empty IRI) - the walk goes through the whole list
+func vpPlaceAtForm(x Item, pos string, emb Item, form int) {
+	var v Item = emb
+	list := ItemCollection{emb}
+	if form == 2 {
+		list = ItemCollection{IRI("https://h.ex/z"), nil, (*Object)(nil), IRI(""), emb}
+	}
+	if form > 0 {
+		v = list
 	}
 	set := func(o *Object) {
 		switch pos {
 		case "Audience":
-			o.Audience = ItemCollection{emb}
+			o.Audience = list
 		case "Tag":
-			o.Tag = ItemCollection{emb}
+			o.Tag = list
 		case "Attachment":
 			o.Attachment = v
 		case "Icon":
@@ -93,7 +108,7 @@ func vpC11Walk(tname string) {
 		positions = append(append([]string{}, vpC11Walked...), "Object", "Actor", "Target")
 	}
 	pos := positions[vpChoice(len(positions))]
-	inList := vpBool()
+	form := vpChoice(3)
 	// top-level private recipients
 	_ = OnObject(x, func(o *Object) error {
 		o.Bto, o.BCC = vpPrivate('p')
@@ -106,7 +121,7 @@ func vpC11Walk(tname string) {
 	deep.Bto, deep.BCC = vpPrivate('r')
 	emb := &Object{ID: vpMkIRI('e'), Type: NoteType, Summary: vpMk_NLV(0, 's'), Icon: deep}
 	emb.Bto, emb.BCC = vpPrivate('q')
-	vpPlaceAt(x, pos, emb, inList)
+	vpPlaceAtForm(x, pos, emb, form)
 	before := vpCloneItem(x)
 	embBefore := *emb
 	deepBefore := *deep
